@@ -101,7 +101,7 @@ pub fn check_inst(x: &AInst, ctx: &[AInst], r: &mut Report, rp: &dyn Fn() -> Jso
         return fail(r, rule, format!("assemble() = {}", hex_words(&got)));
     }
     // parse header ++ context ++ words
-    let mut w = gram::header(0x0001_0600, 0, 1_000_000);
+    let mut w = gram::header_varied(want.iter().fold(want.len() as u64, |a, x| crate::util::mix(a ^ *x as u64)), 1_000_000);
     for c in ctx {
         w.extend(c.enc());
     }
